@@ -359,6 +359,50 @@ Section Opt.
     apply IH; [|exact Ht]. right. cbn [b_refstop b_qstop b_cost]. apply Hcells. left. reflexivity.
   Qed.
 
+  (** both invariants hold in the initial state when the DP starts in column 0 *)
+  Lemma locate_core_init :
+    let st0 := mkS (init_column cfg s1 0) (if start_in_ref cfg then m else Z.min m (k + 1)) 0 (mkB 0 (no_best s1 n) 0 m n) 0 false in
+    SD (0 + 1 - 1) st0 /\ SL (0 + 1 - 1) st0.
+  Proof.
+    cbv zeta.
+    assert (Hn : 0 <= n) by apply zlen_nonneg.
+    assert (Hm : 0 <= m) by apply zlen_nonneg.
+    assert (Hnz : forall cnt lo t d, (t < cnt)%nat -> nth t (zrange lo cnt) d = lo + Z.of_nat t).
+    { induction cnt as [|cn IH]; intros lo t d Ht; [lia|]. destruct t as [|t']; cbn [zrange nth]; [lia|]. rewrite IH by lia. lia. }
+    assert (Hinit : forall cnt lo, 0 <= lo -> lo + Z.of_nat cnt <= m + 1 -> colD eqc thr cfg s1 s2 0 lo (map (init_entry cfg 0) (zrange lo cnt))).
+    { induction cnt as [|cn IH]; intros lo Hlo Hc; cbn [zrange map]; constructor; [|apply IH; lia].
+      split; [apply init_entry_ok; lia|].
+      unfold init_entry, cellD. rewrite IND1. destruct (start_in_ref cfg), (start_in_query cfg); cbn [cost score origin]; unfold DELETION_SCORE, rs_of, qs_of.
+      all: repeat split; try nia.
+      all: intros _.
+      all: (eapply ed_weak; [apply (ed_trivial eqc 1); lia|]).
+      all: rewrite !zslice_length by lia; nia. }
+    assert (HinitL : forall cnt lo, 0 <= lo -> lo + Z.of_nat cnt <= m + 1 -> colL 0 lo (map (init_entry cfg 0) (zrange lo cnt))).
+    { induction cnt as [|cn IH]; intros lo Hlo Hc; cbn [zrange map]; constructor; [|apply IH; lia].
+      intros rs' qs' c' Ha Hr Hq He. assert (qs' = 0) by lia. subst qs'. rewrite zslice_empty in He.
+      pose proof (ed_len_l eqc _ _ _ He eq_refl) as Hl. rewrite zslice_length in Hl by lia.
+      unfold init_entry, capk. rewrite IND1. destruct Ha as [Ha1 _].
+      destruct (start_in_ref cfg) eqn:Esr, (start_in_query cfg); cbn [cost]; try lia.
+      all: destruct Ha1 as [->|[Hs _]]; try congruence; lia. }
+    split.
+    - replace (0 + 1 - 1) with 0 by lia. unfold AlignDist.SD; cbn [col last best].
+      split; [apply Hinit; [lia | unfold zlen; lia]|]. split; [apply init_column_length|].
+      split; [destruct (start_in_ref cfg); lia|]. split; [|left; reflexivity].
+      unfold init_column. apply (Forall_skipn_nth (fun e => k < cost e) dummy). intros t Ht. rewrite map_length, zrange_length in Ht.
+      rewrite (nth_indep _ dummy (init_entry cfg 0 0)) by (rewrite map_length, zrange_length; lia).
+      rewrite map_nth, Hnz by lia. unfold init_entry. rewrite IND1. destruct (start_in_ref cfg) eqn:Esr; [unfold zlen in *; lia|].
+      assert (Htk : k + 2 <= Z.of_nat t) by (unfold zlen in *; lia).
+      destruct (start_in_query cfg); cbn [cost]; lia.
+    - replace (0 + 1 - 1) with 0 by lia. unfold SL; cbn [col last best].
+      split; [apply HinitL; [lia | unfold zlen; lia]|]. split; [|left; reflexivity].
+      destruct (start_in_ref cfg) eqn:Esr; [left; reflexivity|].
+      destruct (Z_le_gt_dec m (k + 1)) as [Hle|Hgt]; [left; lia|]. right.
+      unfold init_column. apply (Forall_skipn_nth (fun e => k < cost e) dummy). intros t Ht. rewrite map_length, zrange_length in Ht.
+      rewrite (nth_indep _ dummy (init_entry cfg 0 0)) by (rewrite map_length, zrange_length; lia).
+      rewrite map_nth, Hnz by lia. unfold init_entry. rewrite IND1, Esr.
+      destruct (start_in_query cfg); cbn [cost]; lia.
+  Qed.
+
   Hypothesis thr_bound : forall L, thr L <= k.
   Hypothesis stop_q : stop_in_query cfg = true.
 
